@@ -120,6 +120,9 @@ pub struct StreamCfg {
     /// percent of episodes that are an over-long "packet": frame ids continue past 4095
     /// by (ab)using the reserved bit next to the id's high nibble
     pub overlong_pct: u32,
+    /// per-ten-thousand chance that an episode is a flood of tens of thousands of tiny
+    /// frames that each produce an error result (anything counting them in 16 bits wraps)
+    pub flood_pptt: u32,
 }
 
 fn src_packet(sim: &Sim, cfg: &StreamCfg) -> Packet {
@@ -181,6 +184,28 @@ pub fn episode(sim: &Sim, cfg: &StreamCfg, tag: Tag, out: &mut Vec<Item>) -> Res
             });
         }
         sim.count("abandoned_giant_announcement");
+        return Ok(());
+    }
+    if cfg.flood_pptt > 0 && cfg.fault_pct > 0 && sim.draw(10_000) < cfg.flood_pptt {
+        let n = 66_000 + sim.draw(5_000);
+        let addr = cfg.addrs[0];
+        for i in 0..n {
+            // alternately a frame the decoder rejects and a continuation frame without a packet
+            let unit = if cfg.kind.is_bytes() {
+                if i % 2 == 0 {
+                    Unit::Body(vec![0x05])
+                } else {
+                    Unit::Body(cobs_encode(&raw_usart_image(true, false, true, 3, addr, 1, &[3])))
+                }
+            } else if i % 2 == 0 {
+                Unit::Can(CanUnit::Frame(bxcan::Frame::new_data(bxcan::StandardId::new(0x123).unwrap(), bxcan::Data::new(&[1]).unwrap())))
+            } else {
+                let id = (1u32 << 28) | (1 << 26) | addr as u32;
+                Unit::Can(CanUnit::Frame(bxcan::Frame::new_data(bxcan::ExtendedId::new(id).unwrap(), bxcan::Data::new(&[3]).unwrap())))
+            };
+            out.push(Item { unit, tag, what: "error-flood" });
+        }
+        sim.count("fault_flood_of_over_65536_rejected_frames");
         return Ok(());
     }
     if cfg.kind.is_bytes() && cfg.fault_pct > 0 && sim.chance(2) {
@@ -644,6 +669,14 @@ pub fn reads_ahead(kind: LinkKind) -> bool {
     v
 }
 
+/// Calibrates all three links at process start, so that no run's measurements (heap
+/// accounting in particular) depend on whether the calibration happened inside it.
+pub fn calibrate_all() {
+    for k in [LinkKind::Usart, LinkKind::Can, LinkKind::Serial] {
+        let _ = reads_ahead(k);
+    }
+}
+
 fn new_receiver(sim: &Sim, kind: LinkKind, wire: &WireRef, back: &WireRef) -> AnyLink {
     // constructed in the SUT allocation domain: whatever a fresh receiver holds is "fresh"
     match sut(|| AnyLink::new(kind, Dev::new(sim, "rx", wire, back))) {
@@ -670,6 +703,7 @@ fn draw_cfg(sim: &Sim, kind: LinkKind, tier: Tier, long: bool) -> StreamCfg {
         fault_pct: sim.pick(&[60u32, 100, 30, 10]),
         giant_pct: if long { sim.pick(&[2u32, 0, 10]) } else { sim.pick(&[0u32, 0, 5]) },
         overlong_pct: 0,
+        flood_pptt: if long { 1 } else { 0 },
     }
 }
 
@@ -681,7 +715,14 @@ pub fn run_c06(sim: &Sim, prop: &str, tier: Tier) -> Outcome {
     let wire = Wire::new(kind);
     let back = Wire::new(kind);
     wire.borrow_mut().policy = schedule_policy(sim, mode, kind);
-    let cfg = draw_cfg(sim, kind, tier, false);
+    let mut cfg = draw_cfg(sim, kind, tier, false);
+    if sim.draw(20_000) == 19_999 {
+        cfg.flood_pptt = 3_000;
+    }
+    if tier == Tier::Quick && sim.draw(500) == 499 {
+        // the 4096-frame size belongs to every tier, it is just rare in the quick one
+        cfg.huge_pct = 25;
+    }
 
     let max_eps = match tier {
         Tier::Quick => 6,
@@ -1042,6 +1083,25 @@ pub fn run_c19(sim: &Sim, prop: &str, tier: Tier) -> Outcome {
     let sig = |what: &str| format!("{}:{}", kind.name(), what);
 
     let read_ahead = reads_ahead(kind);
+    // the receiver is a full link endpoint: in some runs the application also sends through
+    // it between polls, against a device that may delay, truncate or fail writes
+    let send_pct = if clean_only { 0 } else { sim.pick(&[0u32, 0, 0, 5, 25]) };
+    if send_pct > 0 {
+        let mut t = crate::dev::TxPolicy::benign();
+        match kind {
+            LinkKind::Serial => {
+                t.short = sim.pick(&[0u32, 50]);
+                t.hard = sim.pick(&[0u32, 30]);
+                t.flush_err = sim.pick(&[0u32, 20]);
+            }
+            _ => {
+                t.wb = sim.pick(&[0u32, 50]);
+                t.wb_burst = 3;
+            }
+        }
+        back.borrow_mut().tx = t;
+        sim.probe("receiver_object_also_sends");
+    }
     let mut announced: u32 = 0; // A: largest announcement taken since the last boundary
     let mut polls = 0usize;
     let soft_budget = 4 * n_frames + 300;
@@ -1049,6 +1109,22 @@ pub fn run_c19(sim: &Sim, prop: &str, tier: Tier) -> Outcome {
     let mut max_between: isize = 0;
     let mut accepted_since_boundary: usize = 0;
     loop {
+        if send_pct > 0 && sim.chance(send_pct) {
+            let p = Packet {
+                is_error: false,
+                device_address: 0x0e0f,
+                data: fill_pattern(0, polls as u32, sim.pick(&[4usize, 20, 60])),
+            };
+            match crate::scenario::send(sim, "rx", &mut rx, &p) {
+                Err(Crash::Panic(m)) => return Outcome::Foreign("C14.exact", format!("sender panicked: {}", m)),
+                Err(Crash::Blocked) => return Outcome::Foreign("C14.term", "sender blocked".to_string()),
+                _ => {}
+            }
+            // what it wrote is of no interest here
+            let mut b = back.borrow_mut();
+            b.bytes.clear();
+            b.cframes.clear();
+        }
         let out = poll(sim, "rx", &mut rx, &wire);
         polls += 1;
         for i in out.frames_before..out.frames_after.min(n_frames) {
